@@ -35,8 +35,8 @@ def _outside(results):
 def _canary(rep, shard):
     """Binding demonstration, one TLC run: in three different recorded runs of an accepted shard corrupt one recorded OUTPUT each
     so that it certainly violates the statement - (a) a final node value of a node that has one is replaced by another
-    lattice element, (b) the value of a node WITHOUT value is invented, (c) the input of the first call-back of a
-    Def chain's continuation (or, failing that, the stabilized flag) is changed.  T_X01 must reject exactly those."""
+    lattice element, (b) the value of a node WITHOUT value is invented, (c) the input of the second Def of a
+    Def chain is changed (or, if the prefix has no such chain, a stabilized flag is cleared).  T_X01 must reject exactly those."""
     lines = core.read_lines(shard)
     evs, starts = [], []
     for x in lines:
@@ -61,6 +61,8 @@ def _canary(rep, shard):
         end = evs[b - 1]
         if end["ev"] != "end" or end["panic"] != "" or evs[a]["default"] != 0:
             continue
+        if any(e.get("tag") for e in evs[a:b]):
+            continue      # a run with a tagged (known-finding) event is rejected there and skipped from then on
         k = kinds[0]
         if k == "value":
             i = next((i for i, v in enumerate(end["vals"]) if v[0] == 1), None)
@@ -78,17 +80,30 @@ def _canary(rep, shard):
             notes.append("value invented for an unreached node")
         else:
             # second Def of a chain: its input must be the answer of the first
-            j = next((j for j in range(a + 2, b - 1) if evs[j]["f"] == "def" and evs[j - 1]["f"] == "def" and evs[j - 1]["o"] == evs[j]["x"]
-                      and evs[j]["x"] != 0), None)
-            if j is not None:
-                evs[j]["x"] = 2 if evs[j]["x"] != 2 else 1
-                want.append(j + 1)
-                notes.append("input of a continued Def chain changed")
-            else:
+            # (forward runs; the def TIDs instr_<addr>_<n> of one block are numbered consecutively)
+            def follows(p, q):
+                pa, pn = p["a"].rsplit("_", 1)
+                qa, qn = q["a"].rsplit("_", 1)
+                return pa == qa and int(qn) == int(pn) + 1
+            j = next((j for j in range(a + 2, b - 1) if evs[a]["dir"] == "fwd" and evs[j]["f"] == "def" and evs[j - 1]["f"] == "def"
+                      and evs[j - 1]["o"] == evs[j]["x"] and evs[j]["x"] != 0 and follows(evs[j - 1], evs[j])), None)
+            if j is None:
+                continue
+            evs[j]["x"] = 2 if evs[j]["x"] != 2 else 1
+            want.append(j + 1)
+            notes.append("input of a continued Def chain changed")
+        kinds.pop(0)
+    if kinds == ["chain"]:
+        # no continued Def chain in the prefix: clear the stabilized flag of a run not used yet instead
+        for a, b in runs:
+            end = evs[b - 1]
+            if end["ev"] == "end" and end["panic"] == "" and evs[a]["default"] == 0 and b not in want and end["stabilized"] \
+                    and not any(e.get("tag") for e in evs[a:b]):
                 end["stabilized"] = False
                 want.append(b)
                 notes.append("stabilized flag cleared")
-        kinds.pop(0)
+                kinds.pop(0)
+                break
     if kinds:
         raise ToolError("canary: no suitable runs in the first events of %s (left: %s)" % (shard, kinds))
     path = os.path.join(core.BUILD, "traces", "canary_X01.ndjson")
@@ -145,7 +160,7 @@ def check(seed, tier):
         "mc_runs": rep.cov.get("mc_runs"),
         "invariants": INVARIANTS,
         "trusted_base": TRUSTED + ["Cfg.tla as definition of the graph (property C08 checks it against get_program_cfg)"],
-    }, ["programs: irgen::gen_program, 1-3 functions x 1-4 blocks, <= 3 defs per block (well-formed normalised: Cfg!WellFormed, checked by TLC per run)",
+    }, ["programs: irgen::gen_program, 1-4 functions x 1-8 blocks, <= 3 defs per block, graphs up to ~45 nodes (well-formed normalised: Cfg!WellFormed, checked by TLC per run)",
         "user analyses: six lattices (pow2, pow3, chain4, M3, N5, vee), one random monotone table per call-back and argument combination; "
         "monotone in the order extended by None (checked by TLC per run: InterprocFix!AnalysisInClass)",
         "start values on value-carrying nodes only (NodeValue::Value); a default value is given to the value-carrying nodes only",
